@@ -35,6 +35,7 @@ def run(ctx):
     c18_6(ctx)
     c18_6b(ctx)
     c18_7(ctx)
+    c18_8(ctx)
 
 
 # ------------------------------------------------------------------ C18.1
@@ -744,6 +745,66 @@ def c18_7(ctx):
         sets = [[str(apnf.N(b.operand_term(a))) for a in t["args"]] for bi, n_, t in b.calls() if U.flat(n_).endswith("BitSlice::set")]
         ok = len(sets) == 1 and "LeftChildFirstIterator::new', 'blob'" in sets[0][1] and sets[0][2] in ("1", "True", "true")
         ctx.ob(R, "cache-new:seen-set", ok, "the seen bit of every block yielded by the traversal from the root is set", found=sets[:1])
+
+
+def c18_8(ctx):
+    """'every key has an inclusion proof that is valid and ends in that root':
+    (a) the lineage walk behind get_proof_of_inclusion / get_lineage_* follows parent links until the root and stops for no
+        other reason than a block that cannot be read: its only branch tests are `next_index is Some/None` and the `?` of
+        get_block (no depth cap: insert-at-leaf histories build trees of arbitrary depth);
+    (b) ProofOfInclusion::valid rejects only where a layer's recorded combined hash differs from
+        calculate_internal_hash(running hash, side, other hash) and otherwise answers `running hash == root_hash()`:
+        no additional plausibility test on the hashes (leaf-hash uniqueness says nothing about internal hashes)."""
+    from .. import apnf
+    from .. import paths as P
+    R = "C18.8"
+    b = U.body(ctx, R, BLOB + "::get_lineage_blocks_with_indexes")
+    if b:
+        seen = set()
+        for node in b.edge_info:
+            if b.edge_info[node][0] in b.reach:
+                t, l = b.edge_condition(node)
+                seen.add((str(apnf.N(t)), l[0]))
+        exp = {("('MerkleBlob::get_block', 'self', 'var:next_index')", "try"), ("var:next_index", "is")}
+        ctx.ob(R, "lineage-walk:tests", seen == exp, "the lineage walk branches only on `next_index` and on get_block's result",
+               found=sorted(map(str, seen ^ exp))[:3] or None, where=b.fn.sp)
+    f = ctx.fb.fns.get("chia_datalayer::merkle::proof_of_inclusion::ProofOfInclusion::valid")
+    if f is None:
+        return ctx.missing(R, "valid:table", "ProofOfInclusion::valid not found")
+    b = Body(f, ctx.fb)
+    ctx.touched(b.path)
+    bad = []
+    classes = set()
+    for ev, ex in P.enumerate_paths(b):
+        if ex[0] != "return":
+            bad.append("exit " + str(ex[0]))
+            continue
+        r = str(apnf.N(P.ret_of(ev)))
+        kinds = {"next": [], "mismatch": []}
+        other = []
+        for t, l in P.conds(ev):
+            st = str(apnf.N(t))
+            if st.startswith("('next', "):
+                kinds["next"].append(l[1])
+            elif st.startswith("('PartialEq::ne', ('calculate_internal_hash', ") and ".combined_hash" in st:
+                kinds["mismatch"].append(l[1])
+            else:
+                other.append(st[:100])
+        if other:
+            bad.append("branch on an unlisted test: " + other[0])
+        elif r in ("0", "False", "false"):
+            classes.add("false")
+            if True not in kinds["mismatch"]:
+                bad.append("returns false without a failed layer")
+        elif r.startswith("('eq', ") and r.endswith("('ProofOfInclusion::root_hash', 'self'))"):
+            classes.add("verdict")
+            if any(kinds["mismatch"]) or not kinds["next"] or kinds["next"][-1] != ("None",):
+                bad.append("final comparison reached with " + str(kinds))
+        else:
+            bad.append("unlisted verdict " + r[:100])
+    ctx.ob(R, "valid:table", not bad and classes == {"false", "verdict"},
+           "ProofOfInclusion::valid: false only after a layer's combined hash mismatch, otherwise running hash == root_hash()",
+           found=sorted(set(bad))[:3] or None, where=f.sp)
 
 
 READ_ONLY_MUT = ("get_mut", "iter_mut", "as_mut")
